@@ -160,3 +160,10 @@ PROPS["C20"] = {
     "parts": [{"name": "determinism", "src": "c20_determinism.cpp", "quick": T(150, 60, [], 100), "thorough": T(1700, 120, [], 100)}],
 }
 NOT_APPLICABLE = {}
+
+# The bounds strings above name the core alphabets; the families added in the later rounds (DESIGN.md section 9) are not repeated here --
+# the evidence file written by every run lists each phase with its number of cases, and that listing is the authoritative statement of what was covered.
+for _p in PROPS.values():
+    for _t in ("quick", "thorough"):
+        if isinstance(_p.get("bounds"), dict) and _t in _p["bounds"] and "later rounds" not in _p["bounds"][_t]:
+            _p["bounds"][_t] += "; plus the families added in the later rounds (DESIGN.md section 9): every phase is listed with its case count in the evidence file"
